@@ -267,16 +267,17 @@ func checkC08(p *core.Program, r *core.Report) {
 			entries = append(entries, f)
 		}
 	}
-	for _, fn := range p.FuncsOf("ws") {
-		if strings.Contains(fn.Name(), "readShipPump") || fn.Parent() != nil && strings.Contains(fn.Parent().Name(), "readShipPump") {
-			add(fn)
-		}
-	}
 	if a := findWS(p, r, R1); a != nil {
 		for _, fn := range a.fns {
 			core.EachInstr(fn, func(in ssa.Instruction) {
 				if core.IsInvokeOf(in, a.mIncoming) {
 					add(core.Outermost(fn))
+				}
+				// the pong handler literal runs on the read path as well
+				if mc, ok := in.(*ssa.MakeClosure); ok {
+					if cl, ok := mc.Fn.(*ssa.Function); ok {
+						add(cl)
+					}
 				}
 			})
 		}
@@ -284,13 +285,37 @@ func checkC08(p *core.Program, r *core.Report) {
 	add(p.Method("ship", "ShipConnection", "HandleIncomingWebsocketMessage"))
 	add(p.Method("ship", "ShipConnection", "ReportConnectionError"))
 	add(p.Method("hub", "Hub", "ServeHTTP"))
-	add(p.Method("hub", "Hub", "verifyPeerCertificate"))
-	add(p.Method("hub", "Hub", "connectFoundService"))
 	add(p.Method("hub", "Hub", "ReportMdnsEntries"))
-	add(p.Method("mdns", "MdnsManager", "processMdnsEntry"))
-	add(p.Func("mdns", "parseTxt"))
-	add(p.Method("mdns", "AvahiProvider", "chanListener"))
-	add(p.Method("mdns", "ZeroconfProvider", "chanListener"))
+	if ha := findHub(p, r, R1); ha != nil {
+		for _, d := range ha.dialFns {
+			add(d)
+		}
+	}
+	// certificate callback: hub function with the tls.Config.VerifyPeerCertificate signature
+	for _, fn := range p.FuncsOf("hub") {
+		sig := fn.Signature
+		if sig.Params().Len() == 2 && sig.Results().Len() == 1 && types.TypeString(sig.Params().At(0).Type(), nil) == "[][]byte" && strings.Contains(types.TypeString(sig.Params().At(1).Type(), nil), "x509.Certificate") {
+			add(fn)
+		}
+	}
+	add(resolverCallback(p))
+	for _, fn := range p.FuncsOf("mdns") {
+		// TXT parser: ([]string) map[string]string
+		sig := fn.Signature
+		if sig.Params().Len() == 1 && sig.Results().Len() == 1 && types.TypeString(sig.Params().At(0).Type(), nil) == "[]string" && types.TypeString(sig.Results().At(0).Type(), nil) == "map[string]string" {
+			add(fn)
+		}
+		// provider listener goroutines
+		core.EachInstr(fn, func(in ssa.Instruction) {
+			if g, ok := in.(*ssa.Go); ok {
+				if t := g.Call.StaticCallee(); t != nil && p.PkgShort(t) == "mdns" {
+					add(t)
+				} else if cl := core.ClosureArg(g.Call.Value); cl != nil {
+					add(cl)
+				}
+			}
+		})
+	}
 	// goroutines spawned in ship (timer, closers)
 	for _, fn := range p.FuncsOf("ship") {
 		core.EachInstr(fn, func(in ssa.Instruction) {
